@@ -23,7 +23,7 @@ RULE = ("seeded histories of 1-14 steps over create / remove / flush / remove-of
         "reads on a TmpPool bound to a private directory; each history is executed len+3 times: normal exit, "
         "exception raised after step j for EVERY j in 0..len, return and break out of the body (fault enumeration "
         "over all body positions). Multi-process pools: 1-3 forked children creating files before and after the "
-        "parent's flush(), exiting normally or by exception, parent leaving normally or by exception. FilePool: 0-6 "
+        "parent's flush(), exiting normally or by exception, parent leaving normally or by exception; race cases: children create files continuously WHILE the parent flushes repeatedly with every statement of flush() stretched by an injected delay. FilePool: 0-6 "
         "existing files (with duplicates) in modes r, rb, w, a, r+, ab, body exits enumerated the same way. "
         "distinct_nontrivial = distinct (kind, history, exit route) executions with >=2 steps.")
 ASSUMPTIONS = [
@@ -66,6 +66,10 @@ def gen_case(rng, tier, index):
         return {"kind": "tmp-multi", "ops": children, "parent_before": rng.randint(0, 2), "parent_after": rng.randint(0, 2),
                 "flush_mid": rng.random() < 0.8, "parent_raises": rng.random() < 0.4,
                 "fork_after_flush": rng.random() < 0.3}
+    if k == 7:
+        return {"kind": "tmp-race", "ops": [{"creates": rng.randint(20, 60), "pace": rng.choice([0, 0.0005, 0.002])}
+                                            for _ in range(rng.randint(1, 3))],
+                "line_delay": rng.choice([0.0005, 0.002, 0.005]), "parent_raises": rng.random() < 0.3}
     nfiles = rng.randint(0, 6)
     files = [rng.randrange(5) for _ in range(nfiles)]
     return {"kind": "filepool", "files": files, "mode": rng.choice(["r", "rb", "w", "a", "r+", "ab", "wb"]),
@@ -321,6 +325,97 @@ def run_tmp_multi(case, res):
     del pool_obj
 
 
+def _race_child(pool, spec, conn):
+    instr.reset_for_child("child")
+    try:
+        for _ in range(spec["creates"]):
+            conn.send(pool.create())
+            if spec["pace"]:
+                time.sleep(spec["pace"])
+    finally:
+        conn.close()
+
+
+def run_tmp_race(case, res):
+    """Children keep creating files WHILE the parent flushes repeatedly; every statement of flush() is stretched by an
+    injected delay (sys.monitoring LINE hook) so that creates fall between any two of its steps."""
+    from windpyutils.files import TmpPool
+    d = fresh_dir("tmprace")
+    ctx = multiprocessing.get_context("fork")
+    ever = []
+
+    def fail(mech, msg):
+        raise Violation(mech, f"multi_proc TmpPool, {len(case['ops'])} children creating during repeated flush(): {msg}",
+                        {"dir": sorted(os.listdir(d))[:6]})
+
+    plan = {}
+    for rel in range(0, 40):
+        for occ in range(1, 600):
+            plan[("main", "TmpPool.flush", rel, occ)] = ("sleep", case["line_delay"])
+    pool_obj = TmpPool(d, multi_proc=True)
+    try:
+        with pool_obj as pool:
+            procs = []
+            for spec in case["ops"]:
+                a, b = ctx.Pipe(duplex=False)
+                p = ctx.Process(target=_race_child, args=(pool, spec, b))
+                p.start()
+                b.close()
+                procs.append((p, a))
+            instr.start_case(plan=plan, trace=False)
+            try:
+                flushes = 0
+                t_end = time.time() + 30
+                while any(p.is_alive() for p, _ in procs) and time.time() < t_end:
+                    pool.flush()
+                    flushes += 1
+                    for p, a in procs:
+                        while a.poll(0):
+                            try:
+                                ever.append(a.recv())
+                            except EOFError:
+                                break
+            finally:
+                fired = len(instr.S.fired)
+                instr.stop_case()
+            res.count("race_flushes", flushes)
+            res.count("race_delays_injected_in_flush", fired)
+            for p, a in procs:
+                p.join(30)
+                if p.is_alive():
+                    p.kill()
+                    fail("harness-timeout", "child did not exit (inconclusive)")
+                while a.poll(0):
+                    try:
+                        ever.append(a.recv())
+                    except EOFError:
+                        break
+            res.count("race_files_created_by_children", len(ever))
+            res.evaluations += 1
+            alive = sorted(p for p in ever if os.path.exists(p))
+            on_disk = sorted(os.path.join(d, f) for f in os.listdir(d))
+            listed = sorted(pool[i] for i in range(len(pool)))
+            if on_disk != alive:
+                fail("files-vs-listing", "the directory holds files the pool never handed out")
+            if listed != alive:
+                fail("created-during-flush-lost", f"after the children finished the pool lists {len(listed)} paths but "
+                     f"{len(alive)} created-and-not-removed files exist; unlisted: {[p for p in alive if p not in listed][:3]}")
+            pool.flush()
+            if os.listdir(d) or len(pool):
+                fail("flush-leaves-files", f"after a final flush() {len(os.listdir(d))} file(s) remain")
+            ever.append(pool.create())
+            if case["parent_raises"]:
+                raise Boom("parent body raises")
+    except Boom:
+        pass
+    res.evaluations += 1
+    left = [p for p in ever if os.path.exists(p)]
+    if left or os.listdir(d):
+        fail("exit-leaves-files", f"after leaving the context {len(left)} file(s) remain")
+    res.seen(("tmprace", repr(case)))
+    del pool_obj
+
+
 # --------------------------------------------------------------------------- FilePool
 
 def run_filepool(case, res):
@@ -408,6 +503,8 @@ def run_case(case, res):
                     run_tmp_single(case, res)
                 elif case["kind"] == "tmp-multi":
                     run_tmp_multi(case, res)
+                elif case["kind"] == "tmp-race":
+                    run_tmp_race(case, res)
                 else:
                     run_filepool(case, res)
             except instr.StepBudgetExceeded:
